@@ -134,3 +134,23 @@ Definition infer (vs : list value) : option ty :=
   opt_bind (mapM get_type vs) shrink_top.
 
 End Shrink.
+
+(* ---- well-formed runtime values: the string keys of a dict are pairwise distinct (a Python dict
+        cannot hold the same key twice); evaluated on every generated case ---- *)
+Definition strkeys (kvs : list (value * value)) : list string :=
+  flat_map (fun kv => match fst kv with VStr s => [s] | _ => [] end) kvs.
+
+Fixpoint nodup_strb (l : list string) : bool :=
+  match l with
+  | [] => true
+  | s :: r => negb (existsb (String.eqb s) r) && nodup_strb r
+  end.
+
+Fixpoint wf_valueb (v : value) : bool :=
+  match v with
+  | VList es | VSet es | VTuple es => forallb wf_valueb es
+  | VDict kvs =>
+      nodup_strb (strkeys kvs) && forallb (fun kv => wf_valueb (fst kv) && wf_valueb (snd kv)) kvs
+  | VDefaultDict kvs => forallb (fun kv => wf_valueb (fst kv) && wf_valueb (snd kv)) kvs
+  | _ => true
+  end.
